@@ -332,6 +332,25 @@ pub fn run(seed: u64, count: usize, thorough: bool, out: &mut Out) {
             sorted.dedup();
             out.case("C16", call("distinct", vec![y("serde"), l(vec![z(all.len() as i128)])]), b(sorted.len() == all.len()), "prop:identity-distinct-after-serde", true);
         }
+        // atoms created after an older structure was read back through serde are new to every live structure: the original,
+        // and one made after it
+        if let Some(newer) = crate::guarded(|| p.clone()) {
+            let back = crate::guarded(|| serde_json::to_value(&p).ok().and_then(|v| serde_json::from_value::<PDB>(v).ok())).flatten();
+            if back.is_some() {
+                let mut fresh = PDB::new();
+                let mut m = Model::new(1);
+                for k in 0..3 {
+                    if let Some(a) = Atom::new(false, k, "", "CA", 0.0, 0.0, 0.0, 1.0, 0.0, "C", 0) {
+                        m.add_atom(a, "A", (1, None), ("GLY", None));
+                    }
+                }
+                fresh.add_model(m);
+                let (fids, _) = internals(&fresh);
+                let (nids, _) = internals(&newer);
+                let clash = fids.iter().any(|f| ids.contains(f) || nids.contains(f));
+                out.case("C16", call("distinct", vec![y("fresh-after-serde"), l(vec![z(fids.len() as i128)])]), b(!clash), "prop:identity-fresh-after-serde", true);
+            }
+        }
         copy_case(out, "serde", &p, s);
         // ---- second read of the same text
         if let Some(t) = &text {
